@@ -149,6 +149,9 @@ def _b_body(di, mask, bad):
             else:
                 check(_tok(a.token) == _tok(b.token), f'undamaged cell at line {line_of_stage[s] + 1} col {c} changed: {_tok(a.token)} vs {_tok(b.token)}')
     # exported verbatim in place
+    if any(txt == '' for _, _, txt in damaged):
+        kp.dumps(doc)          # must not raise; the written form of an empty cell (and of a line it empties) is outside the claim
+        return True
     out = kp.dumps(doc)
     cout = kp.dumps(clean)
     grid = [ln.split('\t') for ln in out.split('\n') if ln]
